@@ -256,6 +256,18 @@ impl Ctx {
         if self.known.is_open(&self.property, &v.signature) {
             self.known_hit(&v.signature);
             true
+        } else if std::env::var("VERIF_SURVEY").is_ok() {
+            // development aid: list every signature instead of stopping at the first (exit code 3)
+            let first = {
+                let mut g = self.inner.lock().unwrap();
+                let e = g.known_hits.entry(format!("SURVEY {}", v.signature)).or_insert(0);
+                *e += 1;
+                *e == 1
+            };
+            if first {
+                eprintln!("SURVEY {} :: {}", v.signature, v.detail.chars().take(600).collect::<String>());
+            }
+            true
         } else {
             false
         }
